@@ -63,6 +63,9 @@ func run(c *vf.Ctx) {
 	armorRoundTrip(c, g)
 	phase["A_armor"] = time.Since(t0).Seconds()
 	t0 = time.Now()
+	armorLong(c)
+	phase["A_armor_long"] = time.Since(t0).Seconds()
+	t0 = time.Now()
 	crcFaults(c)
 	phase["B_crc_faults"] = time.Since(t0).Seconds()
 	t0 = time.Now()
@@ -94,23 +97,66 @@ func headerSets() []hdrSet {
 	}
 }
 
+// ownedWrite hands w a private copy of p and overwrites the copy as soon as Write has
+// returned (the caller owns its buffer again).
+func ownedWrite(w io.Writer, p []byte) error {
+	q := append(make([]byte, 0, len(p)+4), p...)
+	_, err := w.Write(q)
+	for i := range q {
+		q[i] ^= 0xFF
+	}
+	return err
+}
+
+// encodeArmor armors body. chunk > 0: written in pieces of chunk octets; chunk == 0: one
+// Write; chunk == -1: one Write with empty Writes before and after it (for an empty body
+// that is: only empty Writes); chunk == -2: no Write call at all when the body is empty.
+// The header map handed to Encode is a private copy that is modified once Encode returned.
 func encodeArmor(typ string, h map[string]string, body []byte, chunk int) ([]byte, error) {
 	var buf bytes.Buffer
-	w, err := armor.Encode(&buf, typ, h)
+	var hc map[string]string
+	if h != nil {
+		hc = make(map[string]string, len(h))
+		for k, v := range h {
+			hc[k] = v
+		}
+	}
+	w, err := armor.Encode(&buf, typ, hc)
 	if err != nil {
 		return nil, err
 	}
-	if chunk <= 0 {
-		if _, err := w.Write(body); err != nil {
+	for k := range hc {
+		hc[k] = "overwritten after Encode returned"
+	}
+	if hc != nil {
+		hc["Added-Later"] = "x"
+	}
+	switch {
+	case chunk == -2 && len(body) == 0:
+	case chunk <= 0:
+		if chunk == -1 {
+			if err := ownedWrite(w, nil); err != nil {
+				return nil, err
+			}
+			if err := ownedWrite(w, []byte{}); err != nil {
+				return nil, err
+			}
+		}
+		if err := ownedWrite(w, body); err != nil {
 			return nil, err
 		}
-	} else {
+		if chunk == -1 {
+			if err := ownedWrite(w, []byte{}); err != nil {
+				return nil, err
+			}
+		}
+	default:
 		for i := 0; i < len(body); i += chunk {
 			j := i + chunk
 			if j > len(body) {
 				j = len(body)
 			}
-			if _, err := w.Write(body[i:j]); err != nil {
+			if err := ownedWrite(w, body[i:j]); err != nil {
 				return nil, err
 			}
 		}
@@ -122,23 +168,30 @@ func encodeArmor(typ string, h map[string]string, body []byte, chunk int) ([]byt
 }
 
 // readChunks reads r to EOF with the given buffer size (0 = io.ReadAll), with a step budget.
+// The buffer holds old bytes before every Read and is overwritten after every Read (it is
+// the caller's); a reader that has reported EOF is asked twice more.
 func readChunks(r io.Reader, size int) ([]byte, error) {
 	if size <= 0 {
 		return io.ReadAll(r)
 	}
 	var out []byte
 	buf := make([]byte, size)
-	for steps := 0; steps < 1<<22; steps++ {
+	for steps := 0; steps < 1<<24; steps++ {
+		for i := range buf {
+			buf[i] = 0xEE
+		}
 		n, err := r.Read(buf)
 		out = append(out, buf[:n]...)
 		if err == io.EOF {
+			r.Read(buf)
+			r.Read(buf[:0])
 			return out, nil
 		}
 		if err != nil {
 			return out, err
 		}
 	}
-	return out, fmt.Errorf("reader did not reach EOF within 2^22 Read calls")
+	return out, fmt.Errorf("reader did not reach EOF within 2^24 Read calls")
 }
 
 func sameHeaders(got map[string]string, want map[string]string) bool {
@@ -162,12 +215,22 @@ func armorRoundTrip(c *vf.Ctx, g *pgpfix.GPG) {
 	for n := 0; n <= maxLen; n++ {
 		lengths = append(lengths, n)
 	}
-	lengths = append(lengths, 10000)
+	if !c.Thorough {
+		// E: 4 full lines (192 octets); 768 octets = one 1024-character buffer of the base64
+		// encoder = 16 full lines, and twice that
+		lengths = append(lengths, 190, 191, 192, 193, 194, 766, 767, 768, 769, 770)
+	} else {
+		lengths = append(lengths, 766, 767, 768, 769, 770)
+	}
+	lengths = append(lengths, 1534, 1535, 1536, 1537, 1538, 10000)
 	if c.Thorough {
 		lengths = append(lengths, 100000)
 	}
 	types := []string{"PGP MESSAGE", "PGP SIGNATURE", "X"}
-	chunks := []int{0, 1, 2, 5, 47, 48, 49, 64, 1000}
+	// -1: empty Writes around one Write; -2: no Write at all for the empty body
+	chunks := []int{0, 1, 2, 5, 47, 48, 49, 64, 1000, -1, -2}
+	// D: the decoder reaches the block after skipping lines / after abandoning a block
+	prefixes := []string{"leading garbage\n", strings.Repeat("g", 150) + "\n", "-----BEGIN BROKEN-----\nStale: header of the abandoned block\nthis line has no separator\n", "\n\n-----BEGIN \n"}
 	reads := []int{0, 1, 3, 57, 4096}
 	hs := headerSets()
 
@@ -190,6 +253,9 @@ func armorRoundTrip(c *vf.Ctx, g *pgpfix.GPG) {
 				for ci, chunk := range chunks {
 					if n > 1000 && (ci%4 != 0 || hi > 2 || ti > 0) {
 						continue // long bodies: fewer variants
+					}
+					if chunk == -2 && n > 0 {
+						continue
 					}
 					for vi, body := range values {
 						if vi > 0 && (chunk != 0 || ti != 0) {
@@ -273,6 +339,28 @@ func armorRoundTrip(c *vf.Ctx, g *pgpfix.GPG) {
 							}
 							if !bytes.Equal(got, body) {
 								c.Violation("armor round trip changes the body", map[string]any{"case": desc, "read": rs, "gotlen": len(got)})
+							}
+						}
+						if chunk == 0 && vi == 0 && n <= 200 {
+							for pi, pre := range prefixes {
+								var blk *armor.Block
+								var derr, rerr2 error
+								var got []byte
+								p, pv, st := vf.Protect(func() {
+									blk, derr = armor.Decode(bytes.NewReader(append([]byte(pre), out...)))
+									if derr == nil {
+										got, rerr2 = readChunks(blk.Body, reads[(n+pi)%len(reads)])
+									}
+								})
+								c.Eval(1)
+								switch {
+								case p:
+									c.Violation("armor.Decode panics on armor.Encode output behind leading lines", map[string]any{"case": desc, "prefix": pre, "panic": fmt.Sprint(pv), "stack": st})
+								case derr != nil || rerr2 != nil:
+									c.Violation("armor.Decode fails on armor.Encode output behind leading lines", map[string]any{"case": desc, "prefix": pre, "err": fmt.Sprint(derr, rerr2)})
+								case blk.Type != typ || !sameHeaders(blk.Header, h.m) || !bytes.Equal(got, body):
+									c.Violation("armor.Decode returns a different block for armor.Encode output behind leading lines", map[string]any{"case": desc, "prefix": pre, "type": blk.Type, "headers": blk.Header})
+								}
 							}
 						}
 						if n >= 1 {
@@ -458,6 +546,97 @@ func armorRoundTrip(c *vf.Ctx, g *pgpfix.GPG) {
 		}
 	})
 	c.Add("gpg_enarmor_runs", int64(len(enl)))
+}
+
+// armorLong (C): body lengths 2^k + {-1, 0, 1, 47, 48, 49} (48 octets = one armor line, 3 = one
+// radix-64 quantum) for k = 12, 16, 20 (thorough also 22), written in one piece, in pieces of
+// 65537 octets and in pieces of 4093 octets (piece boundaries cross the 2^k points and the
+// encoder's 768-octet / 1024-character buffer), read back with io.ReadAll, 4096- and 57-octet
+// reads. Oracle: reference encoder (byte for byte), reference decoder, body identity.
+func armorLong(c *vf.Ctx) {
+	ks := []int{12, 16, 20}
+	if c.Thorough {
+		ks = append(ks, 22)
+	}
+	var lengths []int
+	for _, k := range ks {
+		for _, d := range []int{-1, 0, 1, 47, 48, 49} {
+			lengths = append(lengths, 1<<k+d)
+		}
+	}
+	pool := c.Bytes("armor-long", 0, 1<<16+1)
+	c.ParallelFor(len(lengths), func(li int) {
+		n := lengths[li]
+		body := make([]byte, n)
+		for i := 0; i < n; i += len(pool) {
+			copy(body[i:], pool)
+		}
+		want := pgpref.ArmorEncode("PGP MESSAGE", nil, body, 64)
+		for _, chunk := range []int{0, 65537, 4093} {
+			if chunk >= n && chunk != 0 {
+				continue
+			}
+			desc := map[string]any{"len": n, "chunk": chunk}
+			out, err := encodeArmor("PGP MESSAGE", nil, body, chunk)
+			c.Eval(1)
+			if err != nil {
+				c.Violation("armor.Encode fails", map[string]any{"case": desc, "err": err.Error()})
+				continue
+			}
+			if !bytes.Equal(out, want) {
+				c.Violation("armor.Encode output differs from the reference encoding [long body]", map[string]any{"case": desc, "gotlen": len(out), "wantlen": len(want)})
+				continue
+			}
+			for _, rs := range []int{0, 4096, 57} {
+				var blk *armor.Block
+				var derr, rerr error
+				var got []byte
+				p, pv, st := vf.Protect(func() {
+					blk, derr = armor.Decode(bytes.NewReader(out))
+					if derr == nil {
+						got, rerr = readChunks(blk.Body, rs)
+					}
+				})
+				c.Eval(1)
+				switch {
+				case p:
+					c.Violation("armor.Decode panics on armor.Encode output", map[string]any{"case": desc, "panic": fmt.Sprint(pv), "stack": st})
+				case derr != nil || rerr != nil:
+					c.Violation("reading the body of armor.Decode(armor.Encode(x)) fails", map[string]any{"case": desc, "read": rs, "err": fmt.Sprint(derr, rerr)})
+				case blk.Type != "PGP MESSAGE" || len(blk.Header) != 0 || !bytes.Equal(got, body):
+					c.Violation("armor round trip changes the body", map[string]any{"case": desc, "read": rs, "gotlen": len(got)})
+				}
+			}
+		}
+		// one flipped bit in the middle of the long body: the CRC-24 must catch it
+		if ra, err := pgpref.ArmorDecode(want); err != nil || !bytes.Equal(ra.Body, body) {
+			c.Violation("reference codec does not round-trip a long body (harness)", map[string]any{"len": n, "err": fmt.Sprint(err)})
+		}
+		mut := append([]byte{}, want...)
+		at := len(mut) / 2
+		for mut[at] == '\n' {
+			at++
+		}
+		if mut[at] == 'A' {
+			mut[at] = 'B'
+		} else {
+			mut[at] = 'A'
+		}
+		blk, derr := armor.Decode(bytes.NewReader(mut))
+		c.Eval(1)
+		if derr == nil {
+			got, rerr := readChunks(blk.Body, 4096)
+			if rerr == nil {
+				cls := "armored body with a CRC-24 mismatch is accepted with a DIFFERENT body"
+				if bytes.Equal(got, body) {
+					cls = "harness: mutated long body decodes to the same body"
+				}
+				c.Violation(cls, map[string]any{"len": n, "offset": at})
+			}
+		}
+		c.Nontrivial(fmt.Sprintf("A/long/%d", n))
+	})
+	c.Set("armor_long_lengths", lengths)
 }
 
 func decodeFailClass(h hdrSet) string {
@@ -698,7 +877,20 @@ func clearsignGrammar(c *vf.Ctx, g *pgpfix.GPG) {
 			}
 		}
 	}
-	c.Set("clearsign_texts", map[string]int{"one_or_two_lines": two, "three_lines": len(texts) - two})
+	// C (long inputs): lines and whitespace runs around the 4096-octet bufio.Writer of the
+	// encoder, a long run of trailing whitespace (buffered until the line ends), many lines
+	grammar := len(texts)
+	for _, n := range []int{4095, 4096, 4097, 1<<16 + 1} {
+		x := strings.Repeat("x", n)
+		sp := strings.Repeat(" \t", n/2)
+		for _, t := range []string{x + "\n", "-" + x, x + "\r\n- tail", "a" + sp + "\nb\n", "a" + sp + "b\n", sp + "\n-\n"} {
+			texts = append(texts, t)
+			forGPG = append(forGPG, n <= 4097)
+		}
+	}
+	texts = append(texts, strings.Repeat("- line \t\r\nFrom x\n\n", 400), strings.Repeat("\n", 5000), strings.Repeat("-\n", 3000))
+	forGPG = append(forGPG, true, true, true)
+	c.Set("clearsign_texts", map[string]int{"one_or_two_lines": two, "three_lines": grammar - two, "long": len(texts) - grammar})
 	hashes := []crypto.Hash{crypto.SHA256, crypto.SHA512, crypto.SHA1, crypto.SHA384, crypto.SHA224}
 	fixed := time.Unix(pgpfix.FixtureTime, 0)
 
@@ -722,7 +914,7 @@ func clearsignGrammar(c *vf.Ctx, g *pgpfix.GPG) {
 			sg, h = signers[0], hashes[i%2]
 		}
 		cfg := &packet.Config{Rand: vf.NewRand(fmt.Sprintf("c46-%d-%d", c.Seed, i)), DefaultHash: h, Time: func() time.Time { return fixed }}
-		desc := map[string]any{"text": texts[i], "signer": sg.name, "hash": hashNames[h]}
+		desc := map[string]any{"text": string(trunc([]byte(texts[i]))), "textlen": len(texts[i]), "signer": sg.name, "hash": hashNames[h]}
 		var out bytes.Buffer
 		var encErr error
 		if p, pv, st := vf.Protect(func() {
@@ -731,13 +923,21 @@ func clearsignGrammar(c *vf.Ctx, g *pgpfix.GPG) {
 				encErr = err
 				return
 			}
-			if i%2 == 0 {
-				_, encErr = w.Write(text)
-			} else {
+			// every Write gets a private copy that is overwritten when Write returns (A); the text
+			// is written whole / octet by octet / in two pieces cut at position (i/3) mod (len+1)
+			switch i % 3 {
+			case 0:
+				encErr = ownedWrite(w, text)
+			case 1:
 				for k := range text {
-					if _, encErr = w.Write(text[k : k+1]); encErr != nil {
+					if encErr = ownedWrite(w, text[k:k+1]); encErr != nil {
 						break
 					}
+				}
+			default:
+				cut := (i / 3) % (len(text) + 1)
+				if encErr = ownedWrite(w, text[:cut]); encErr == nil {
+					encErr = ownedWrite(w, text[cut:])
 				}
 			}
 			if encErr == nil {
@@ -830,7 +1030,35 @@ func clearsignGrammar(c *vf.Ctx, g *pgpfix.GPG) {
 			c.Violation("embedded signature of clearsign.Decode(clearsign.Encode(x)) does not verify", map[string]any{"case": desc, "err": fmt.Sprint(verr), "msg": string(msg)})
 			return
 		}
-		c.Nontrivial("C/" + texts[i])
+		// D: the same message behind other text and followed by more text (Decode skips to the
+		// first message and returns the suffix); Decode only reads its input
+		{
+			const pre, post = "-----BEGIN PGP MESSAGE-----\nnot this one\n\nsome text\n", "trailing text\n-----BEGIN PGP SIGNED MESSAGE-----\n"
+			in := append(append([]byte(pre), msg...), post...)
+			keep := append([]byte{}, in...)
+			var b2 *clearsign.Block
+			var rest2 []byte
+			if p, pv, st := vf.Protect(func() { b2, rest2 = clearsign.Decode(in) }); p {
+				c.Violation("clearsign.Decode panics on clearsign.Encode output", map[string]any{"case": desc, "panic": fmt.Sprint(pv), "stack": st, "embedded": true})
+				return
+			}
+			switch {
+			case b2 == nil:
+				c.Violation("clearsign.Decode does not find the message written by clearsign.Encode when other text precedes it", map[string]any{"case": desc})
+			case !bytes.Equal(b2.Plaintext, wantPlain) || !bytes.Equal(b2.Bytes, wantSigned):
+				c.Violation("clearsign.Decode returns a different text when other text precedes the message", map[string]any{"case": desc, "got": string(b2.Plaintext)})
+			case string(rest2) != post:
+				c.Violation("clearsign.Decode returns a wrong rest", map[string]any{"case": desc, "rest": string(trunc(rest2))})
+			}
+			if !bytes.Equal(in, keep) {
+				c.Violation("clearsign.Decode writes to its input", map[string]any{"case": desc})
+			}
+		}
+		if len(texts[i]) <= 200 {
+			c.Nontrivial("C/" + texts[i])
+		} else {
+			c.Nontrivial(fmt.Sprintf("C/long/%d", i))
+		}
 		c.Outcome(fmt.Sprintf("clearsign ok (%d lines)", len(lines)))
 		if c.WantSample() && i == len(last)+3*len(last)+7 {
 			c.Sample(map[string]any{"part": "C", "case": desc, "message": string(msg)})
